@@ -621,6 +621,23 @@ Proof.
   destruct (is_err v); [exact I|]. apply IH. assumption.
 Qed.
 
+Lemma foreach_items_in_ok : forall bb call_f items other acc,
+  (forall item, In item items -> ok bb (call_f (item :: other))) -> ok bb (foreach_items call_f items other acc).
+Proof.
+  intros bb call_f items other. induction items as [|item r IH]; intros acc H; simpl; [exact I|].
+  pose proof (H item (or_introl eq_refl)) as H1. destruct (call_f (item :: other)) as [v|c|]; try assumption.
+  destruct (is_err v); [exact I|]. apply IH. intros i Hi. apply H. right. assumption.
+Qed.
+
+Lemma with_rest_skipn : forall args k f, (k <= length args)%nat -> with_rest args k f = f (skipn k args).
+Proof.
+  intros args k f Hk. unfold with_rest, go_slice_from, go_slice.
+  replace ((0 <=? Z.of_nat k) && (Z.of_nat k <=? Z.of_nat (length args)) && (Z.of_nat (length args) <=? Z.of_nat (length args))) with true.
+  - rewrite Nat2Z.id. replace (Z.to_nat (Z.of_nat (length args) - Z.of_nat k)) with (length (skipn k args))
+      by (rewrite skipn_length; lia). rewrite firstn_all. reflexivity.
+  - symmetry. repeat (apply andb_true_iff; split); apply Z.leb_le; lia.
+Qed.
+
 (* the nested call of foreach has one argument fewer: the number of arguments is enough fuel *)
 Lemma call_ok : forall fuel f args, (length args <= fuel)%nat -> ok true (call fuel f args).
 Proof.
